@@ -6,8 +6,8 @@ import Bubus.Proofs.Mutex
 namespace Bubus
 
 /-- instances, activations, lock, handler stack and the buses' parallel flags -/
-def World.skel (w : World) : (IId → Inst) × (Proc → Option Act) × Option BId × List IId × (BId → Bool) :=
-  (w.inst, w.act, w.lock, w.stack, fun b => (w.bus b).parallel)
+def World.skel (w : World) : (IId → Inst) × (Proc → Option Act) × Option BId × List IId × Nat × (BId → Bool) :=
+  (w.inst, w.act, w.lock, w.stack, w.ni, fun b => (w.bus b).parallel)
 
 @[simp] theorem setEv_skel (w : World) (e : EId) (x : Ev) : (w.setEv e x).skel = w.skel := rfl
 @[simp] theorem modEv_skel (w : World) (e : EId) (f : Ev → Ev) : (w.modEv e f).skel = w.skel := rfl
@@ -15,14 +15,13 @@ def World.skel (w : World) : (IId → Inst) × (Proc → Option Act) × Option B
 @[simp] theorem setNow_skel (w : World) (t : Nat) : (w.setNow t).skel = w.skel := rfl
 @[simp] theorem setNb_skel (w : World) (t : Nat) : (w.setNb t).skel = w.skel := rfl
 @[simp] theorem setNe_skel (w : World) (t : Nat) : (w.setNe t).skel = w.skel := rfl
-@[simp] theorem setNi_skel (w : World) (t : Nat) : (w.setNi t).skel = w.skel := rfl
 @[simp] theorem wake_skel (w : World) : (wake w).skel = w.skel := by
   unfold World.skel; simp
 
 theorem setBus_skel (w : World) (b : BId) (x : Bus) (h : x.parallel = (w.bus b).parallel) : (w.setBus b x).skel = w.skel := by
   unfold World.skel
-  simp only [setBus_inst, setBus_act, setBus_lock, setBus_stack]
-  congr 4
+  simp only [setBus_inst, setBus_act, setBus_lock, setBus_stack, setBus_ni]
+  congr 5
   funext b'
   by_cases hb : b' = b
   · subst hb; simp [h]
@@ -34,22 +33,24 @@ theorem modBus_skel (w : World) (b : BId) (f : Bus → Bus) (h : (f (w.bus b)).p
 theorem sameView_of_skel (w w' : World) (h : w'.skel = w.skel) : SameView w w' := by
   unfold World.skel at h
   simp only [Prod.mk.injEq] at h
-  obtain ⟨hi, ha, hl, hs, hp⟩ := h
-  refine ⟨fun b => congrFun hp b, fun i => by rw [hi], fun i => by rw [hi], fun p => by unfold runOf; rw [ha], hl, hs⟩
+  obtain ⟨hi, ha, hl, hs, hn, hp⟩ := h
+  refine ⟨fun b => congrFun hp b, fun i => by rw [hi], fun i => by rw [hi], fun p => by unfold runOf; rw [ha], hl, hs,
+          fun i => by rw [hi]; exact id, hn⟩
 
-theorem SameView.refl (w : World) : SameView w w := ⟨fun _ => rfl, fun _ => rfl, fun _ => rfl, fun _ => rfl, rfl, rfl⟩
+theorem SameView.refl (w : World) : SameView w w := ⟨fun _ => rfl, fun _ => rfl, fun _ => rfl, fun _ => rfl, rfl, rfl, fun _ => id, rfl⟩
 
 theorem SameView.trans {w1 w2 w3 : World} (h1 : SameView w1 w2) (h2 : SameView w2 w3) : SameView w1 w3 := by
-  obtain ⟨a1, a2, a3, a4, a5, a6⟩ := h1
-  obtain ⟨b1, b2, b3, b4, b5, b6⟩ := h2
+  obtain ⟨a1, a2, a3, a4, a5, a6, a7, a8⟩ := h1
+  obtain ⟨b1, b2, b3, b4, b5, b6, b7, b8⟩ := h2
   exact ⟨fun b => (b1 b).trans (a1 b), fun i => (b2 i).trans (a2 i), fun i => (b3 i).trans (a3 i),
-         fun p => (b4 p).trans (a4 p), b5.trans a5, b6.trans a6⟩
+         fun p => (b4 p).trans (a4 p), b5.trans a5, b6.trans a6, fun i h => a7 i (b7 i h), b8.trans a8⟩
 
 /-- an instance update that keeps the coarse state and the executor -/
 theorem sameView_modInst (w : World) (i : IId) (f : Inst → Inst)
-    (h1 : cs (f (w.inst i)).st = cs (w.inst i).st) (h2 : (f (w.inst i)).exec = (w.inst i).exec) :
+    (h1 : cs (f (w.inst i)).st = cs (w.inst i).st) (h2 : (f (w.inst i)).exec = (w.inst i).exec)
+    (h3 : (f (w.inst i)).took.isSome → (w.inst i).took.isSome) :
     SameView w (w.modInst i f) := by
-  refine ⟨fun _ => rfl, ?_, ?_, fun _ => rfl, rfl, rfl⟩
+  refine ⟨fun _ => rfl, ?_, ?_, fun _ => rfl, rfl, rfl, ?_, rfl⟩
   · intro j
     by_cases hj : j = i
     · subst hj; simp [World.modInst, h1]
@@ -57,6 +58,10 @@ theorem sameView_modInst (w : World) (i : IId) (f : Inst → Inst)
   · intro j
     by_cases hj : j = i
     · subst hj; simp [World.modInst, h2]
+    · simp [World.modInst, hj]
+  · intro j
+    by_cases hj : j = i
+    · subst hj; simpa [World.modInst] using h3
     · simp [World.modInst, hj]
 
 /-! stages -/
@@ -115,7 +120,7 @@ theorem dFwd_sameView (w : World) (p : Proc) : SameView w (dFwd w p) := by
   unfold dFwd
   split
   · split
-    · exact sameView_modInst _ _ _ rfl rfl
+    · exact sameView_modInst _ _ _ rfl rfl id
     · exact SameView.refl _
   · exact SameView.refl _
 
